@@ -37,11 +37,29 @@ def _kshapes(T):
     return shs
 
 
+# a few operand pairs beyond the rank bound of the shape alphabet: the rules' axis juggling differs once an operand has rank >= 4 or the ranks
+# differ by two (equal batch extents so that a mix-up keeps the shape)
+HIGH_RANK = {
+    "dot": [((2, 3), (2, 2, 3, 2)), ((2, 2, 3), (2, 2, 3, 2)), ((3,), (2, 2, 3, 2)), ((2, 2, 2, 3), (3, 2)), ((2, 2, 2, 3), (2, 3, 2))],
+    "matmul": [((2, 3, 2, 3), (3, 3, 2)), ((2, 2, 2, 3), (2, 3, 2)), ((2, 2, 3), (2, 2, 3, 2)), ((2, 2, 2, 3), (3,)), ((3,), (2, 2, 3, 2)), ((2, 2, 2, 3), (3, 2))],
+    "inner": [((2, 2, 2, 3), (2, 3)), ((2, 3), (2, 2, 2, 3))],
+    "kron": [((2, 2, 2), (2, 2)), ((2, 2, 2), (2,)), ((2, 2, 2, 2), (2, 2))],
+}
+
+
+def _accepts(fn, pr):
+    try:
+        fn(onp.ones(pr[0]), onp.ones(pr[1]))
+        return True
+    except Exception:
+        return False
+
+
 def _contract(name, fn, op=None, min_rank=0):
     @spec(name, "K")
     def s(ch, T, name=name, fn=fn, op=op):
         shs = [s_ for s_ in _kshapes(T) if len(s_) >= min_rank]
-        pairs = _cached((name, T.quick), lambda: _pairs_accepted(fn, shs))
+        pairs = _cached((name, T.quick), lambda: _pairs_accepted(fn, shs) + [pr for pr in HIGH_RANK.get(name, []) if _accepts(fn, pr)])
         sa, sb = ch.choose("shapes", pairs)
         ka = ch.choose("kind_x", T.kinds_for(sa))
         kb = ch.choose("kind_y", T.kinds_for(sb))
@@ -138,6 +156,11 @@ EINSUMS = [
     ("i...,i...->...", [(3,), (3, 2, 2)]), ("ij...,jk...->ik...", [(2, 3), (3, 2, 2, 3)]), ("...i,...i->...", [(3,), (2, 2, 3)]),
     ("i...j,j->i...", [(2, 3), (3,)]), ("i...j,ij->i...", [(2, 2, 3, 3), (2, 3)]), ("...,...->...", [(), (2, 3)]),
     # a LABELLED size-1 dimension that broadcasts against a larger dimension carrying the same label
+    # single-operand axis permutations that are NOT their own inverse (cubic shapes: a forward/inverse mix-up keeps the shape)
+    ("ijk->jki", [(2, 2, 2)]), ("ijk->kij", [(2, 3, 2)]), ("ijk->jki", [(1, 2, 3)]), ("b...->...b", [(2, 2, 2)]), ("...b->b...", [(2, 3, 2)]),
+    ("ijkl->lijk", [(2, 2, 2, 2)]),
+    # the operand's ellipsis at another position than the output's, operand lacking a broadcast dimension
+    ("i...j,...j->...i", [(2, 3), (2, 3)]), ("i...j,...j->...i", [(2, 2, 3), (2, 3)]), ("...ij,j...->i...", [(2, 3), (3, 2)]),
     ("ij,ij->ij", [(1, 3), (2, 3)]), ("ij,ij->ij", [(2, 1), (2, 3)]),      # (the larger operand is always the second one) ("ij,jk->ik", [(2, 1), (3, 2)]), ("i,i->i", [(1,), (3,)]), ("ij,ij->", [(1, 1), (2, 3)]),
 ]
 
